@@ -471,11 +471,15 @@ func (eval Evaluator) ScaleUp(op0 *rlwe.Ciphertext, scale rlwe.Scale, opOut *rlw
 // SetScale sets the scale of the ciphertext to the input scale (consumes a level).
 func (eval Evaluator) SetScale(ct *rlwe.Ciphertext, scale rlwe.Scale) (err error) {
 	ratioFlo := scale.Div(ct.Scale).Value
+	scaleIn := ct.Scale
 	if err = eval.Mul(ct, &ratioFlo, ct); err != nil {
 		return fmt.Errorf("cannot SetScale: %w", err)
 	}
-	if err = eval.RescaleTo(ct, scale, ct); err != nil {
-		return fmt.Errorf("cannot SetScale: %w", err)
+	// A ratio that is not an integer was scaled by the moduli of the current level: removes them
+	if ct.Scale.Cmp(scaleIn) != 0 {
+		if err = eval.Rescale(ct, ct); err != nil {
+			return fmt.Errorf("cannot SetScale: %w", err)
+		}
 	}
 	ct.Scale = scale
 	return
